@@ -126,18 +126,30 @@ def readRec64 (e : Enc) (sec : SecBuf) (offset : Nat) : M (BitVec 64 × BitVec 6
 /-- `tag = DT_NULL; value = 0; return;` of the three guards -/
 def fabricated : BitVec 64 × BitVec 64 := (BitVec.ofNat 64 DT_NULL, 0)
 
+/-- the generated `tag = DT_NULL; value = 0;` of guard `k` (0: no data / entries too small, 1: index,
+    2: offset) in the instantiation for the class -/
+def fabAt (c32 : Bool) (k : Nat) : BitVec 64 × BitVec 64 :=
+  match c32, k with
+  | true, 0 => (dyn32_get_fab_tag0, dyn32_get_fab_val0)
+  | true, 1 => (dyn32_get_fab_tag1, dyn32_get_fab_val1)
+  | true, _ => (dyn32_get_fab_tag2, dyn32_get_fab_val2)
+  | false, 0 => (dyn64_get_fab_tag0, dyn64_get_fab_val0)
+  | false, 1 => (dyn64_get_fab_tag1, dyn64_get_fab_val1)
+  | false, _ => (dyn64_get_fab_tag2, dyn64_get_fab_val2)
+
 /-- `generic_get_entry_dyn<T>(index, tag, value)` on a section whose `get_data()` has been called -/
 def rawEntryOn (c32 : Bool) (e : Enc) (sec : SecBuf) (index : BitVec 64) : M (BitVec 64 × BitVec 64) :=
   if (if c32 then dyn32_get_nodata sec.data.isNone sec.entSize
-      else dyn64_get_nodata sec.data.isNone sec.entSize) then pure fabricated
+      else dyn64_get_nodata sec.data.isNone sec.entSize) then pure (fabAt c32 0)
   else if sec.entSize = 0 then throw (.divZero "generic_get_entry_dyn/size÷entsize")
   else if (if c32 then dyn32_get_index_ovf index sec.size sec.entSize
-           else dyn64_get_index_ovf index sec.size sec.entSize) then pure fabricated
+           else dyn64_get_index_ovf index sec.size sec.entSize) then pure (fabAt c32 1)
   else
     let offset := if c32 then dyn32_get_offset index sec.entSize else dyn64_get_offset index sec.entSize
     if (if c32 then dyn32_get_offset_ovf offset sec.size else dyn64_get_offset_ovf offset sec.size) then
-      pure fabricated
-    else if c32 then readRec32 e sec offset.toNat else readRec64 e sec offset.toNat
+      pure (fabAt c32 2)
+    else if c32 then readRec32 e sec (dyn32_get_rec_off offset).toNat
+         else readRec64 e sec (dyn64_get_rec_off offset).toNat
 
 /-! ### get_entry / get_entries_num -/
 
@@ -151,9 +163,8 @@ def getEntryCore (a : DynAcc) (count index : BitVec 64) : M (DynAcc × GetRes) :
     let a1 := { a with sec := sec }
     if dyn_get_is_string_tag tag then do
       let (str', r) ← getString a1.str (dyn_get_string_index value)
-      match r with
-      | none => pure ({ a1 with str := str' }, .nostr tag value)
-      | some s => pure ({ a1 with str := str' }, .ok tag value s)
+      if dyn_get_string_null r.isNone then pure ({ a1 with str := str' }, .nostr tag value)
+      else pure ({ a1 with str := str' }, .ok tag value (r.getD []))
     else pure (a1, .ok tag value [])
 
 /-- the `for` loop of `get_entries_num`: `i` when it stops (`break` on DT_NULL or `i == entries_num`).
@@ -165,7 +176,7 @@ def numLoop : Nat → DynAcc → BitVec 64 → BitVec 64 → M (DynAcc × BitVec
     if dyn_num_loop i a.cache then do
       let (a', r) ← getEntryCore a a.cache i
       let tag := r.tagOr prev       -- invalid never happens here: i < entries_num
-      if dyn_num_tag_is_null tag then pure (a', i) else numLoop fuel a' (i + 1) tag
+      if dyn_num_tag_is_null tag then pure (a', i) else numLoop fuel a' (dyn_num_i_incr i) tag
     else pure (a, i)
 
 def needed (a : DynAcc) : BitVec 64 :=
@@ -179,7 +190,7 @@ def entriesNum (a : DynAcc) : M (DynAcc × BitVec 64) :=
       let total := dyn_num_total a.sec.size a.sec.entSize
       let a1 := { a with cache := total }
       do
-        let (a2, i) ← numLoop total.toNat a1 0 (BitVec.ofNat 64 DT_NULL)
+        let (a2, i) ← numLoop total.toNat a1 dyn_num_i_init dyn_num_tag_init
         let n := dyn_num_clamp a2.cache i
         pure ({ a2 with cache := n }, n)
   else pure (a, a.cache)
